@@ -759,6 +759,7 @@ func sameValue(src string, d byte, out string) bool {
 // with double quotes), unknown escapes verbatim, \xHH / \uHHHH decoded only when the value can be written raw.
 //@ func (l *Lexer) readString(delimiter)
 //@   props C10 C11 C07
+//@   slow 5
 //@   requires lexInv(l) && l.position < len(l.input)
 //@   modifies l.position, l.readPosition, l.CurrentChar, l.Line, l.Column
 //@   loop 1 invariant [cursor] lexInv(l) && old(l.position) <= l.position
